@@ -7,9 +7,8 @@
    FULL statement (constructor): ctor_obj r x = Ok d -> all_member r d          -- proved, no guard (C07_ctor_obj_sound), since the
        fixes ac96bee (SO3(SE3 object) rejected) and 5c063cb (conversion keeps one element per value).
    FULL statement (mutators):   all_member r d -> mutate_impl r d m x = Ok d' -> all_member r d'
-       -- proved for x[i] = v with an integer index, append, insert, extend (fix b1d6482 closed the empty-operand hole).
-       ONE hole is left: x[lo:hi] = v with a slice index spreads the rows of the value (_refuted witness; the _partial's guard
-       excludes exactly the slice index).
+       -- proved, no guard (C07_mut_preserves), for x[i] = v, x[lo:hi] = v, append, insert, extend, since the fixes b1d6482
+       (exactly one value required) and fcdd4db (slice index rejected).
    What the exact-type guard type(self) == type(x) buys is proved separately: every operand of another class -- subclass,
    superclass, unrelated, bare ndarray -- is rejected by every mutator, and weakening the guard to isinstance breaks the invariant. *)
 From Coq Require Import List Bool Arith Lia.
@@ -53,43 +52,39 @@ Proof.
 Qed.
 Print Assumptions C07_mut_isinstance_guard_refuted.
 
-(* ------------------------------------------------------------------ mutators preserve membership *)
-Definition mguard (m : mutator) : bool := match m with SetSlice _ _ => false | _ => true end.
-Theorem C07_mut_preserves_refuted_slice_index : exists r d m x d',
-  all_member r d /\ mutate_impl r d m x = Ok d' /\ ~ all_member r d' /\ length d' = 4.
+(* ------------------------------------------------------------------ mutators preserve membership: the FULL statement, no guard *)
+Theorem C07_mut_preserves : forall r d m x d', all_member r d -> mutate_impl r d m x = Ok d' -> all_member r d'.
 Proof.
-  exists oSO3, [V oSO3; V oSO3; V oSO3], (SetSlice 0 2), (Opd oSO3 1), [Junk; Junk; Junk; V oSO3]. repeat split.
-  - repeat constructor.
-  - intros H. inversion H; subst. discriminate.
-Qed.
-Print Assumptions C07_mut_preserves_refuted_slice_index.
-(* x[i] = v (integer index), append, insert, extend: the FULL statement *)
-Theorem C07_mut_preserves_partial : forall r d m x d',
-  mguard m = true -> all_member r d -> mutate_impl r d m x = Ok d' -> all_member r d'.
-Proof.
-  intros r d m x d' Hg Hd H. unfold mutate_impl, mutate in H.
+  intros r d m x d' Hd H. unfold mutate_impl, mutate in H.
   destruct (exact r (ocl x)) eqn:Ex; cbn [negb] in H; [|discriminate].
   pose proof (exact_member _ _ Ex) as Hm.
   assert (HA : (olen x =? 1) = true -> member r (opd_A x) = true).
   { intros H1. unfold opd_A. rewrite H1. exact Hm. }
-  destruct m; cbn [mguard] in Hg; try discriminate.
+  destruct m.
   - destruct (olen x =? 1) eqn:E1; cbn [negb] in H; [|discriminate]. destruct (pos <? length d); [|discriminate].
     injection H as <-. apply all_member_replace; [apply HA; reflexivity | exact Hd].
+  - destruct (olen x =? 1); discriminate.
   - destruct (olen x =? 1) eqn:E1; cbn [negb] in H; [|discriminate]. injection H as <-.
     apply all_member_app; [exact Hd|]. constructor; [apply HA; reflexivity | constructor].
   - destruct (olen x =? 1) eqn:E1; cbn [negb] in H; [|discriminate]. injection H as <-.
     apply all_member_app; [apply all_member_firstn; exact Hd|]. constructor; [apply HA; reflexivity | apply all_member_skipn; exact Hd].
   - injection H as <-. apply all_member_app; auto. apply all_member_repeat; auto.
 Qed.
-Print Assumptions C07_mut_preserves_partial.
-Example C07_mut_preserves_partial_nonvacuous :
+Print Assumptions C07_mut_preserves.
+Example C07_mut_preserves_nonvacuous :
   (exists d', mutate_impl oSE3 [V oSE3] Append (Opd oSE3 1) = Ok d') /\
   (exists d', mutate_impl oUQ [V oUQ] Extend (Opd oUQ 2) = Ok d') /\
   (exists d', mutate_impl oTw3 [V oTw3; V oTw3] (SetInt 1) (Opd oTw3 1) = Ok d').
 Proof. repeat split; eexists; reflexivity. Qed.
+(* assignment to a slice is always rejected, and leaves no trace (the former witness of the refutation) *)
+Theorem C07_mut_slice_rejected : forall r d lo hi x, mutate_impl r d (SetSlice lo hi) x = Err ValueError.
+Proof.
+  intros. unfold mutate_impl, mutate. destruct (negb (exact r (ocl x))); [reflexivity|]. destruct (negb (olen x =? 1)); reflexivity.
+Qed.
+Print Assumptions C07_mut_slice_rejected.
 (* extend is sound at full strength, for operands of any length *)
 Theorem C07_mut_extend_preserves : forall r d x d', all_member r d -> mutate_impl r d Extend x = Ok d' -> all_member r d'.
-Proof. intros r d x d' Hd H. apply (C07_mut_preserves_partial r d Extend x d'); auto. Qed.
+Proof. intros r d x d' Hd H. apply (C07_mut_preserves r d Extend x d'); auto. Qed.
 Print Assumptions C07_mut_extend_preserves.
 (* operands that do not hold exactly one value -- empty or multi-valued -- are rejected by x[i] = v, x[lo:hi] = v, append, insert *)
 Theorem C07_mut_not_single_rejected : forall r d m x, m <> Extend -> olen x <> 1 -> exists e, mutate_impl r d m x = Err e.
